@@ -138,6 +138,9 @@ Ltac cfg_lookup c tpl :=
 Ltac seqb_compute :=
   repeat (match goal with |- context [seqb ?a ?b] =>
             let r := eval vm_compute in (seqb a b) in change (seqb a b) with r end).
+Ltac keq_compute :=
+  repeat (match goal with |- context [keq ?a ?b] =>
+            let r := eval vm_compute in (keq a b) in change (keq a b) with r end).
 
 Lemma cfg_td_get c tpl : ysub [SK ktd] (YMap (mig_config c tpl)) = template_data c.
 Proof. cfg_lookup c tpl. destruct (template_data c); reflexivity. Qed.
@@ -373,15 +376,44 @@ Lemma existsb_map_false {A C} (g : A -> C) (f : C -> bool) l :
   (forall a, f (g a) = false) -> existsb f (map g l) = false.
 Proof. intros H. induction l; simpl; [reflexivity | rewrite H, IHl; reflexivity]. Qed.
 
-Lemma forallb_is_str l : forallb is_str (map YStr l) = true.
+Lemma forallb_is_str l : forallb (fun x => is_str x || is_null x) (map YStr l) = true.
 Proof. induction l; simpl; auto. Qed.
 
 Definition entry_ok (e : str * yv) : bool :=
-  match assoc (fst e) config_keys with Some t => has_ty t (snd e) | None => false end.
+  match assoc_ci (fst e) config_keys with Some t => has_ty t (snd e) | None => false end.
 
 Ltac assoc_compute :=
-  match goal with |- context [assoc ?k config_keys] =>
-    let r := eval vm_compute in (assoc k config_keys) in change (assoc k config_keys) with r end.
+  match goal with
+  | |- context [assoc_ci ?k config_keys] =>
+    let r := eval vm_compute in (assoc_ci k config_keys) in change (assoc_ci k config_keys) with r
+  | |- context [assoc ?k config_keys] =>
+    let r := eval vm_compute in (assoc k config_keys) in change (assoc k config_keys) with r
+  end.
+
+(* no configuration key is `packages`, in any letter case *)
+Lemma cfg_key_not_packages c tpl k v : In (k, v) (mig_config c tpl) -> keq k kpackages = false.
+Proof.
+  intros Hin. apply in_collapse in Hin.
+  assert (H : forallb (fun k => negb (keq k kpackages)) (map fst (cfg_entries c tpl)) = true)
+    by (vm_compute; reflexivity).
+  rewrite forallb_forall in H. apply negb_true_iff. apply H.
+  apply in_map_iff. exists (k, Some v). split; [reflexivity | exact Hin].
+Qed.
+
+(* dropping unset entries keeps the keys distinct up to letter case *)
+Lemma collapse_nodup_ci l : nodup_ci (map fst l) = true -> nodup_ci (map fst (collapse l)) = true.
+Proof.
+  unfold nodup_ci. induction l as [|[k [v|]] t IH]; simpl; intros H; [reflexivity | |];
+    apply andb_true_iff in H as [Hk Ht].
+  - apply andb_true_iff. split; [|apply IH; exact Ht].
+    apply negb_true_iff. apply negb_true_iff in Hk. apply smem_false. apply smem_false in Hk.
+    intros Hin. apply Hk. apply in_map_iff in Hin as [k' [E Hin]].
+    apply in_map_iff. exists k'. split; [exact E | apply collapse_keys_incl; exact Hin].
+  - apply IH; exact Ht.
+Qed.
+
+Lemma collapse_app a b : collapse (a ++ b) = collapse a ++ collapse b.
+Proof. induction a as [|[k [v|]] t IH]; simpl; [reflexivity | rewrite IH; reflexivity | exact IH]. Qed.
 
 Lemma cfg_entry_ok c tpl k v : In (k, Some v) (cfg_entries c tpl) -> entry_ok (k, v) = true.
 Proof.
@@ -405,13 +437,45 @@ Proof.
     injection Hv as <-; reflexivity.
 Qed.
 
+(* ... and with the exact spelling (top level) *)
+Lemma cfg_entry_ok_exact c tpl k v :
+  In (k, Some v) (cfg_entries c tpl) -> check_top_entry (k, v) = true.
+Proof.
+  unfold cfg_entries, check_top_entry. cbn [In fst snd]. intros H.
+  repeat (destruct H as [H|H]; [injection H as <- Hv | ]); try contradiction; try discriminate;
+    seqb_compute; try reflexivity; assoc_compute.
+  - destruct (v_all c); [injection Hv as <-; reflexivity | discriminate].
+  - destruct (v_anchors c) as [[|e m]|]; try discriminate. injection Hv as <-; reflexivity.
+  - destruct (v_dir c); [injection Hv as <-; reflexivity | discriminate].
+  - destruct (v_exclude c) as [[|e m]|]; try discriminate. injection Hv as <-.
+    cbn [has_ty]. apply (forallb_is_str (e :: m)).
+  - destruct (v_exclude_regex c); [injection Hv as <-; reflexivity | discriminate].
+  - destruct (v_include_regex c); [injection Hv as <-; reflexivity | discriminate].
+  - destruct (v_log_level c); [injection Hv as <-; reflexivity | discriminate].
+  - destruct (v_mockname c); [injection Hv as <-; reflexivity | discriminate].
+  - destruct (v_outpkg c); [injection Hv as <-; reflexivity | discriminate].
+  - destruct (v_recursive c); [injection Hv as <-; reflexivity | discriminate].
+  - destruct tpl; [injection Hv as <-; reflexivity | discriminate].
+  - unfold template_data in Hv. destruct (collapse (td_entries c)); [discriminate|].
+    injection Hv as <-; reflexivity.
+Qed.
+
+Lemma cfg_keys_nodup_ci c tpl : nodup_ci (map fst (cfg_entries c tpl)) = true.
+Proof. vm_compute. reflexivity. Qed.
+
 Lemma check_cfg_mig c tpl : check_cfg (mig_config c tpl) = true.
-Proof. unfold check_cfg, mig_config. apply forallb_collapse. intros k v H. apply (cfg_entry_ok c tpl k v H). Qed.
+Proof.
+  unfold check_cfg, mig_config. apply andb_true_iff. split.
+  - apply collapse_nodup_ci, cfg_keys_nodup_ci.
+  - apply forallb_collapse. intros k v H. apply (cfg_entry_ok c tpl k v H).
+Qed.
 
 Lemma check_iface_mig ic : check_iface (mig_iface ic) = true.
 Proof.
-  unfold mig_iface, check_iface. apply forallb_collapse. cbn [In fst snd]. intros k v H.
-  repeat (destruct H as [H|H]; [injection H as <- Hv | ]); try contradiction; seqb_compute.
+  unfold mig_iface, check_iface. apply andb_true_iff. split.
+  { apply collapse_nodup_ci. vm_compute. reflexivity. }
+  apply forallb_collapse. cbn [In fst snd]. intros k v H.
+  repeat (destruct H as [H|H]; [injection H as <- Hv | ]); try contradiction; keq_compute.
   - destruct (i_config ic); [injection Hv as <- | discriminate]. apply check_cfg_mig.
   - destruct (i_configs ic) as [|e l]; [discriminate|]. injection Hv as <-.
     apply (forallb_map_true mig_cfg_node check_cfg_node (e :: l)). intros c. apply check_cfg_mig.
@@ -419,31 +483,39 @@ Qed.
 
 Lemma check_pkg_mig pc : check_pkg (mig_pkg pc) = true.
 Proof.
-  unfold mig_pkg, check_pkg. apply forallb_collapse. cbn [In fst snd]. intros k v H.
-  repeat (destruct H as [H|H]; [injection H as <- Hv | ]); try contradiction; seqb_compute.
+  unfold mig_pkg, check_pkg. apply andb_true_iff. split.
+  { apply collapse_nodup_ci. vm_compute. reflexivity. }
+  apply forallb_collapse. cbn [In fst snd]. intros k v H.
+  repeat (destruct H as [H|H]; [injection H as <- Hv | ]); try contradiction; keq_compute.
   - destruct (p_config pc); [injection Hv as <- | discriminate]. apply check_cfg_mig.
   - destruct (p_ifaces pc) as [|e l]; [discriminate|]. injection Hv as <-.
     cbn [map_of]. apply (forallb_map_true (fun x => (fst x, mig_iface (snd x))) _ (e :: l)).
     intros a. apply check_iface_mig.
 Qed.
 
+Lemma mig_root_entries r :
+  mig_config (r_top r) (Some testify) ++ [(kpackages, pkgs_node r)]
+  = collapse (cfg_entries (r_top r) (Some testify) ++ [(kpackages, Some (pkgs_node r))]).
+Proof. rewrite collapse_app. reflexivity. Qed.
+
 Lemma check_root_mig r : check_root (mig_root r) = true.
 Proof.
-  unfold mig_root, check_root. rewrite forallb_app. apply andb_true_iff. split.
-  - apply forallb_forall. intros [k v] Hin.
-    assert (Hk : seqb k kpackages = false).
-    { apply seqb_neq. intros ->. apply (packages_not_cfg_key (r_top r) (Some testify)).
-      apply in_map_iff. exists (kpackages, v). split; [reflexivity | exact Hin]. }
-    cbn [fst snd]. rewrite Hk. unfold check_cfg. cbn [forallb]. rewrite andb_true_r.
-    apply in_collapse in Hin. apply (cfg_entry_ok _ _ _ _ Hin).
-  - cbn [forallb fst snd]. rewrite seqb_refl, andb_true_r. cbn [map_of].
-    apply forallb_map_true. intros a. apply check_pkg_mig.
+  unfold mig_root, check_root. fold (pkgs_node r). apply andb_true_iff. split.
+  - rewrite mig_root_entries. apply collapse_nodup_ci. vm_compute. reflexivity.
+  - rewrite forallb_app. apply andb_true_iff. split.
+    + apply forallb_forall. intros [k v] Hin.
+      pose proof (cfg_key_not_packages _ _ _ _ Hin) as Hk.
+      cbn [fst snd]. rewrite Hk.
+      apply in_collapse in Hin. apply (cfg_entry_ok_exact _ _ _ _ Hin).
+    + cbn [forallb fst snd]. change (keq kpackages kpackages) with true. rewrite andb_true_r.
+      unfold pkgs_node. cbn [map_of].
+      apply forallb_map_true. intros a. apply check_pkg_mig.
 Qed.
 
 Lemma iface_null_sub_mig ic : iface_null_sub (mig_iface ic) = false.
 Proof.
   unfold mig_iface, iface_null_sub. apply existsb_collapse_false. cbn [In fst snd]. intros k v H.
-  repeat (destruct H as [H|H]; [injection H as <- Hv | ]); try contradiction; seqb_compute;
+  repeat (destruct H as [H|H]; [injection H as <- Hv | ]); try contradiction; keq_compute;
     [reflexivity|].
   destruct (i_configs ic) as [|e l]; [discriminate|]. injection Hv as <-. cbn [andb].
   apply (existsb_map_false mig_cfg_node is_null (e :: l)). intros c. reflexivity.
@@ -452,7 +524,7 @@ Qed.
 Lemma pkg_null_sub_mig pc : pkg_null_sub (mig_pkg pc) = false.
 Proof.
   unfold mig_pkg, pkg_null_sub, under. apply existsb_collapse_false. cbn [In fst snd]. intros k v H.
-  repeat (destruct H as [H|H]; [injection H as <- Hv | ]); try contradiction; seqb_compute;
+  repeat (destruct H as [H|H]; [injection H as <- Hv | ]); try contradiction; keq_compute;
     [reflexivity|].
   destruct (p_ifaces pc) as [|e l]; [discriminate|]. injection Hv as <-. cbn [andb].
   apply (existsb_map_false (fun x => (fst x, mig_iface (snd x))) _ (e :: l)). intros a. apply iface_null_sub_mig.
@@ -462,11 +534,10 @@ Lemma root_null_sub_mig r : root_null_sub (mig_root r) = false.
 Proof.
   unfold mig_root, root_null_sub, under. apply existsb_false. intros [k v] Hin.
   apply in_app_or in Hin as [Hin|Hin].
-  - assert (Hk : seqb k kpackages = false).
-    { apply seqb_neq. intros ->. apply (packages_not_cfg_key (r_top r) (Some testify)).
-      apply in_map_iff. exists (kpackages, v). split; [reflexivity | exact Hin]. }
+  - pose proof (cfg_key_not_packages _ _ _ _ Hin) as Hk.
     cbn [fst]. rewrite Hk. reflexivity.
-  - destruct Hin as [Hin|[]]. injection Hin as <- <-. cbn [fst snd]. rewrite seqb_refl. cbn [andb].
+  - destruct Hin as [Hin|[]]. injection Hin as <- <-. cbn [fst snd].
+    change (keq kpackages kpackages) with true. cbn [andb].
     apply existsb_map_false. intros a. apply pkg_null_sub_mig.
 Qed.
 
